@@ -28,18 +28,21 @@ FAULTS = ("eof", "reset", "write_fail", "garbage_eof", "refuse_next", "unreach_n
 def specials(kind):
     return {"eof": sp_eof, "reset": sp_reset, "write_fail": sp_write_fail,
             "garbage_eof": sp_garbage_eof(GARBAGE[kind]), "refuse_next": sp_refuse_next,
-            "unreach_next": vloop.sp_fail_next("noport" if kind == "waveshare" else "unreachable")}
+            "unreach_next": vloop.sp_fail_next("noport" if kind == "waveshare" else "unreachable"),
+            "send": vloop.sp_send(lambda: clientkit.heading_message(44))}       # not a fault: an application send() landing at this point
 
 
-def make_kwargs_factory(kind, base, status_mode="ok", recv_mode="ok"):
+def make_kwargs_factory(kind, base, status_mode="ok", recv_mode="ok", with_send=True):
     pk = clientkit.std(kind)
     a = pk["A"]
     sp = specials(kind)
 
     def make(devs):
         return dict(kind=kind,
-                    script=[it_connect, it_feed(a[:7]), it_feed(a[7:]), it_feed(pk["A2"]),
-                            it_send(lambda: clientkit.heading_message(66))],
+                    # with_send=False: no application send() at the end (a later send would mask a client
+                    # that gave up reconnecting: its failure triggers a new connect())
+                    script=[it_connect, it_feed(a[:7]), it_feed(a[7:]), it_feed(pk["A2"])]
+                           + ([it_send(lambda: clientkit.heading_message(66))] if with_send else []),
                     specials=sp, deviations=devs, heal=steady_state(pk["PROBE"]),
                     connect_plan=BASES[base], status_cb=status_mode, recv_cb=recv_mode)
     return make
@@ -127,7 +130,8 @@ def judge(kind, sess, o, probe_view):
 def _explore(args):
     kind, base, k, names, first = args[:5]
     modes = args[5] if len(args) > 5 else ("ok", "ok")
-    make = make_kwargs_factory(kind, base, *modes)
+    with_send = not (len(modes) > 2 and modes[2] == "nosend")
+    make = make_kwargs_factory(kind, base, modes[0], modes[1], with_send)
     probe_view = expected_probe(kind)
     stats = {"judged": 0, "outcomes": set(), "nontrivial": 0, "boundaries_base": 0, "max_attempts": 0}
     vios, samples = [], []
@@ -178,6 +182,13 @@ def plan(ctx):
             tasks.append((kind, "n2" if kind == "waveshare" else "u2", 1, names, None))
         for modes in (("slow", "ok"), ("raise", "raise"), ("ok", "slow")):
             tasks.append((kind, "r1", 2 if ctx.thorough else 1, names, None, modes))
+        # a send() racing with a fault while connect() is still finishing (slow status callback holds the connect lock)
+        race = ["send", "reset", "write_fail", "eof"]
+        for f in race:
+            tasks.append((kind, "r0", 2, race, [f], (["slow"], "ok", "nosend")))      # only the first (CONNECTED) notification is slow
+            if ctx.thorough:
+                tasks.append((kind, "r1", 3, race, [f], (["slow"], "ok", "nosend")))
+        tasks.append((kind, "r1", 2 if ctx.thorough else 1, names, None, ("ok", "ok", "nosend")))
     return tasks
 
 
@@ -220,7 +231,8 @@ def run(ctx):
 
 def replay(ctx, rep):
     c = rep["case"]
-    make = make_kwargs_factory(c["client"], c["base"], *c.get("modes", ["ok", "ok"]))
+    md = c.get("modes", ["ok", "ok"])
+    make = make_kwargs_factory(c["client"], c["base"], md[0], md[1], not (len(md) > 2 and md[2] == "nosend"))
     devs = [tuple(d) for d in c["deviations"]]
     sess, o = vloop.run_session(**make(devs))
     sess2, o2 = vloop.run_session(**make(devs))
